@@ -105,9 +105,9 @@ Definition gen_rotf_gps_meaning_ok : Prop :=
   forall s0 s1 s2 s3 r0 r1 r2 r3 r4 r5 r6 r7 r8 : R,
   (gen_rotf_gps s0 s1 s2 s3 r0 r1 r2 r3 r4 r5 r6 r7 r8) = flat_s 2 (rot2 (tr2 (full_r 2 [r0; r1; r2; r3; r4; r5; r6; r7; r8])) (full_s 2 [s0; s1; s2; s3])).
 
-Definition gen_rotk_gps_index_ok : Prop :=
+Definition gen_rotk_gps_same_as_pstrain_ok : Prop :=
   forall c0 c1 c2 c3 c4 c5 c6 c7 c8 c9 c10 c11 c12 c13 c14 c15 r0 r1 r2 r3 r4 r5 r6 r7 r8 : R,
-  (gen_rotk_gps c0 c1 c2 c3 c4 c5 c6 c7 c8 c9 c10 c11 c12 c13 c14 c15 r0 r1 r2 r3 r4 r5 r6 r7 r8) = flat_A 2 (rot4 (tr2 (full_r 2 [r0; r1; r2; r3; r4; r5; r6; r7; r8])) (full_A 2 [c0; c1; c2; c3; c4; c5; c6; c7; c8; c9; c10; c11; c12; c13; c14; c15])).
+  (gen_rotk_gps c0 c1 c2 c3 c4 c5 c6 c7 c8 c9 c10 c11 c12 c13 c14 c15 r0 r1 r2 r3 r4 r5 r6 r7 r8) = (gen_rotk_pstrain c0 c1 c2 c3 c4 c5 c6 c7 c8 c9 c10 c11 c12 c13 c14 c15 r0 r1 r2 r3 r4 r5 r6 r7 r8).
 
 Definition gen_rotg_axis_meaning_ok : Prop :=
   forall s0 s1 s2 s3 r0 r1 r2 r3 r4 r5 r6 r7 r8 : R,
@@ -117,9 +117,9 @@ Definition gen_rotf_axis_meaning_ok : Prop :=
   forall s0 s1 s2 s3 r0 r1 r2 r3 r4 r5 r6 r7 r8 : R,
   (gen_rotf_axis s0 s1 s2 s3 r0 r1 r2 r3 r4 r5 r6 r7 r8) = flat_s 2 (rot2 (tr2 (full_r 2 [r0; r1; r2; r3; r4; r5; r6; r7; r8])) (full_s 2 [s0; s1; s2; s3])).
 
-Definition gen_rotk_axis_index_ok : Prop :=
+Definition gen_rotk_axis_same_as_pstrain_ok : Prop :=
   forall c0 c1 c2 c3 c4 c5 c6 c7 c8 c9 c10 c11 c12 c13 c14 c15 r0 r1 r2 r3 r4 r5 r6 r7 r8 : R,
-  (gen_rotk_axis c0 c1 c2 c3 c4 c5 c6 c7 c8 c9 c10 c11 c12 c13 c14 c15 r0 r1 r2 r3 r4 r5 r6 r7 r8) = flat_A 2 (rot4 (tr2 (full_r 2 [r0; r1; r2; r3; r4; r5; r6; r7; r8])) (full_A 2 [c0; c1; c2; c3; c4; c5; c6; c7; c8; c9; c10; c11; c12; c13; c14; c15])).
+  (gen_rotk_axis c0 c1 c2 c3 c4 c5 c6 c7 c8 c9 c10 c11 c12 c13 c14 c15 r0 r1 r2 r3 r4 r5 r6 r7 r8) = (gen_rotk_pstrain c0 c1 c2 c3 c4 c5 c6 c7 c8 c9 c10 c11 c12 c13 c14 c15 r0 r1 r2 r3 r4 r5 r6 r7 r8).
 
 Definition gen_rotg_pstress_meaning_ok : Prop :=
   forall s0 s1 s2 s3 r0 r1 r2 r3 r4 r5 r6 r7 r8 : R,
@@ -129,9 +129,9 @@ Definition gen_rotf_pstress_meaning_ok : Prop :=
   forall s0 s1 s2 s3 r0 r1 r2 r3 r4 r5 r6 r7 r8 : R,
   (gen_rotf_pstress s0 s1 s2 s3 r0 r1 r2 r3 r4 r5 r6 r7 r8) = flat_s 2 (rot2 (tr2 (full_r 2 [r0; r1; r2; r3; r4; r5; r6; r7; r8])) (full_s 2 [s0; s1; s2; s3])).
 
-Definition gen_rotk_pstress_index_ok : Prop :=
+Definition gen_rotk_pstress_same_as_pstrain_ok : Prop :=
   forall c0 c1 c2 c3 c4 c5 c6 c7 c8 c9 c10 c11 c12 c13 c14 c15 r0 r1 r2 r3 r4 r5 r6 r7 r8 : R,
-  (gen_rotk_pstress c0 c1 c2 c3 c4 c5 c6 c7 c8 c9 c10 c11 c12 c13 c14 c15 r0 r1 r2 r3 r4 r5 r6 r7 r8) = flat_A 2 (rot4 (tr2 (full_r 2 [r0; r1; r2; r3; r4; r5; r6; r7; r8])) (full_A 2 [c0; c1; c2; c3; c4; c5; c6; c7; c8; c9; c10; c11; c12; c13; c14; c15])).
+  (gen_rotk_pstress c0 c1 c2 c3 c4 c5 c6 c7 c8 c9 c10 c11 c12 c13 c14 c15 r0 r1 r2 r3 r4 r5 r6 r7 r8) = (gen_rotk_pstrain c0 c1 c2 c3 c4 c5 c6 c7 c8 c9 c10 c11 c12 c13 c14 c15 r0 r1 r2 r3 r4 r5 r6 r7 r8).
 
 Definition gen_rotg_agpstrain_meaning_ok : Prop :=
   forall s0 s1 s2 r0 r1 r2 r3 r4 r5 r6 r7 r8 : R,
@@ -263,6 +263,7 @@ Definition isosig_pstress_alt_is_3D_condensed_ok : Prop :=
 
 Definition hooke_tri_isotropic_ok : Prop :=
   forall young nu e0 e1 e2 e3 e4 e5 r0 r1 r2 r3 r4 r5 r6 r7 r8 : R,
+  1 + nu <> 0 -> 1 - 2 * nu <> 0 ->
   orth (full_r 3 [r0; r1; r2; r3; r4; r5; r6; r7; r8]) ->
   let sg := (isosig_tri young nu e0 e1 e2 e3 e4 e5) in
   let er := (cb2_3 e0 e1 e2 e3 e4 e5 r0 r1 r2 r3 r4 r5 r6 r7 r8) in
@@ -270,17 +271,11 @@ Definition hooke_tri_isotropic_ok : Prop :=
 
 Definition hooke_pstrain_isotropic_in_plane_ok : Prop :=
   forall young nu e0 e1 e2 e3 r0 r1 r2 r3 r4 r5 r6 r7 r8 : R,
+  1 + nu <> 0 -> 1 - 2 * nu <> 0 ->
   orth (full_r 2 [r0; r1; r2; r3; r4; r5; r6; r7; r8]) ->
   let sg := (isosig_pstrain young nu e0 e1 e2 e3) in
   let er := (cb2_2 e0 e1 e2 e3 r0 r1 r2 r3 r4 r5 r6 r7 r8) in
   (cb2_2 (nthR sg 0) (nthR sg 1) (nthR sg 2) (nthR sg 3) r0 r1 r2 r3 r4 r5 r6 r7 r8) = (isosig_pstrain young nu (nthR er 0) (nthR er 1) (nthR er 2) (nthR er 3)).
-
-Definition hooke_pstress_alt_isotropic_in_plane_ok : Prop :=
-  forall young nu e0 e1 e2 e3 r0 r1 r2 r3 r4 r5 r6 r7 r8 : R,
-  orth (full_r 2 [r0; r1; r2; r3; r4; r5; r6; r7; r8]) ->
-  let sg := (isosig_pstress_alt young nu e0 e1 e2 e3) in
-  let er := (cb2_2 e0 e1 e2 e3 r0 r1 r2 r3 r4 r5 r6 r7 r8) in
-  (cb2_2 (nthR sg 0) (nthR sg 1) (nthR sg 2) (nthR sg 3) r0 r1 r2 r3 r4 r5 r6 r7 r8) = (isosig_pstress_alt young nu (nthR er 0) (nthR er 1) (nthR er 2) (nthR er 3)).
 
 Definition ortsig_pstrain_is_3D_restricted_ok : Prop :=
   forall E0 E1 E2 n0 n1 n2 G0 G1 G2 e0 e1 e2 e3 : R,
